@@ -9,6 +9,6 @@ cargo build --release --offline
 "$HERE/harness/target/release/pv" selftest
 cd "$HERE/harness/fuzz"
 if ! cargo +nightly fuzz build -s none >"$HERE/harness/fuzz-build.log.tmp" 2>&1; then
-    echo "warning: libFuzzer targets did not build (thorough tier of C01 C03 C04 C09 C14 C17 will report exit 2):"
+    echo "warning: libFuzzer targets did not build (the libFuzzer part of the thorough tier will report exit 2):"
     tail -5 "$HERE/harness/fuzz-build.log.tmp"
 fi
